@@ -9,7 +9,9 @@ Link to the code (all three are re-run on every check):
       - the real listener registry (Endpoint / TunnelEndpoint / PythonCryptoEndpoint proxies) vs the registry model,
       - the real TaskManager under the virtual clock vs the scheduler model (register / cancel / replace / settle /
         advance / shutdown, with stubborn tasks that take time to die),
-      - the real RequestCache vs the cache model,
+      - the real RequestCache (add / pop / has / timeouts / shutdown) vs the same scheduler model (a cache is a delayed task
+        registered under the cache's identifier; there is no separate Lean structure for it),
+      - IPv8.add_strategy / unload_overlay sequences vs the service model,
       - every shipped overlay class loaded and unloaded on both endpoint stacks vs the interpreted generated script.
   * oracle (implementation only): scripted protocol runs of every shipped overlay class with DEFAULT settings on the
     repo's mock network under the virtual clock; unload is requested at a chosen packet index or virtual time; then late
@@ -32,19 +34,22 @@ PROPERTY = "C11"
 LEAN_TARGETS = ["Ipv8.C11.Props"]
 PROPS_FILE = "Ipv8/C11/Props.lean"
 DRIVER = "drv_c11"
-RULE = ("registry/taskmanager/requestcache: random op sequences (lengths 4-40) over small name/prefix alphabets, distinct = "
-        "distinct op sequence, non-trivial = contains the op under test after at least 3 other ops; "
+RULE = ("registry / taskmanager / requestcache / service: random op sequences (lengths 3-40) over small name/prefix alphabets, "
+        "distinct = distinct op sequence, non-trivial = registry: contains a delivery query, taskmanager: >= 4 ops and a "
+        "successful register, requestcache: contains an add, service: contains an unload_overlay; unload-static: "
+        "non-trivial only with an open exit socket; "
         "scenarios: (overlay class, endpoint stack, scenario family, target role, unload trigger) with the trigger either "
         "a packet index of the run or a virtual time; distinct = distinct tuple; non-trivial = the unloaded overlay had "
-        "sent or received at least one datagram, or owned at least one unfinished task, when unload was requested")
+        "sent or received at least one datagram, or owned an unfinished task other than the built-in periodic ones, when "
+        "unload was requested")
 TRUSTED_BASE = [
     "tools/gen_c11.py: AST translation of the unload() chain of every shipped overlay class into a small op vocabulary (unknown statements are rejected)",
-    "hand-written Lean models of the listener registry, TaskManager/asyncio cancellation rules and RequestCache (Ipv8/C11/Model.lean), tied by the correspondence run",
+    "hand-written Lean models of the listener registry (incl. TunnelEndpoint back reference and tunnel-side delivery), of TaskManager on asyncio's cancellation rules (RequestCache is run against the same model, it has no model of its own), of the unload statement vocabulary and of the service's strategy list (Ipv8/C11/Model.lean), tied by the correspondence run",
     "asyncio's scheduling rules as encoded in the scheduler model (cancellation is delivered on a later loop iteration; done callbacks run after completion); tools/vclock.py ties virtual time to CPython's loop",
     "the repo's mock network (ipv8/test/mocking) as the transport in scenario runs; the Rust extension ipv8_rust_tunnels for the real tunnel crypto (not modelled: C11 needs no crypto law)",
 ]
 ASSUMPTIONS = [
-    "an overlay's tasks are only created through its TaskManager API (register_task/replace_task/@task) — tasks spawned with bare ensure_future are outside the model and only watched by the scenario oracle (sends, open transports)",
+    "the scheduler model only knows tasks created through the TaskManager API (register_task/replace_task/@task); the code also spawns bare ensure_future tasks (Community._bootstrap -> bootstrapper.initialize) and application-owned coroutines run overlay code: these are only watched by the scenario oracle (sends, sockets, suspended coroutines)",
     "listener ids added to the registry after unload are not the unloaded overlay nor a proxy forwarding to it (hypothesis `Foreign` of silent_after_unload)",
     "scenario runs use the mock network; kernel sockets are only opened by tunnel exit sockets (real UDP sockets bound to 0.0.0.0/:: port 0)",
 ]
@@ -83,6 +88,9 @@ class Sim:
         self.loop_transports = []         # (owner overlay or None, transport) for every loop.create_datagram_endpoint
         self.socket_baseline = None
         self.app_jobs = []                # application-owned API coroutines kept in flight across the unload
+        self.iter = 0                     # event-loop iterations of this run so far
+        self.trigger_iter = None          # request the unload when this iteration starts
+        self.send_iters = []              # (iteration, index of the destination node) of every packet sent
 
     # ---- bookkeeping -------------------------------------------------------------------------------
     def owned_managers(self):
@@ -107,6 +115,8 @@ class Sim:
     def on_send(self, ep, addr, packet):
         self.step += 1
         node = ep.node
+        dst = getattr(self.internet.get(addr), "node", None) if getattr(self, "internet", None) is not None else None
+        self.send_iters.append((self.iter, self.nodes.index(dst) if dst in self.nodes else -1))
         if len(packet) > 22:
             self.seen_ids.add(packet[22])
         if self.target is not None and node is self.target:
@@ -161,9 +171,12 @@ class Sim:
             return
         self.unload_started = self.loop.time()
         ov = self.target.overlay
-        self.stats["pre_tasks"] = sum(1 for m, _, f, _ in self.task_records
+        builtin = ("_check_tasks", "discover_lan_addresses", "do_circuits", "do_ping", "do_peer_discovery",
+                   "token_maintenance", "node_maintenance", "value_maintenance")
+        self.stats["pre_tasks"] = sum(1 for m, name, f, _ in self.task_records
                                       if (m is ov or getattr(m, "overlay", None) is ov
-                                          or m is getattr(ov, "request_cache", None)) and not f.done())
+                                          or m is getattr(ov, "request_cache", None)) and not f.done()
+                                      and name not in builtin)
 
         async def do():
             try:
@@ -307,7 +320,7 @@ def overlay_classes():
     return _PATCHED_CACHE["classes"]
 
 
-def build_node(sim, cls, stack, flags=None):
+def build_node(sim, cls, stack, flags=None, companion=False):
     from ipv8.keyvault.crypto import default_eccrypto
     from ipv8.messaging.anonymization.endpoint import TunnelEndpoint
     from ipv8.peer import Peer
@@ -328,9 +341,72 @@ def build_node(sim, cls, stack, flags=None):
     overlay.my_estimated_wan = rec.wan_address
     overlay.my_estimated_lan = rec.lan_address
     node = Node(sim, overlay, endpoint, rec)
+    node.companion = None
+    add_bootstrappers(overlay)
+    if companion and stack == "tunnel-endpoint":
+        # a second overlay of the same application that sends anonymously (shipped setting `anonymize=True`): its
+        # traffic is routed by the TunnelEndpoint through whatever tunnel community the endpoint refers to
+        from ipv8.community import CommunitySettings
+        cset = CommunitySettings(my_peer=peer, endpoint=endpoint, network=Network())
+        cset.anonymize = True
+        node.companion = classes_by_name()["DiscoveryCommunity"](cset)
+        node.companion.my_estimated_wan = rec.wan_address
+        node.companion.my_estimated_lan = rec.lan_address
     instrument(sim, node)
     sim.nodes.append(node)
     return node
+
+
+def classes_by_name():
+    return overlay_classes()
+
+
+def add_bootstrappers(overlay):
+    """The two shipped bootstrapper classes.  The Dispersy one gets the addresses of the run's other nodes later (there is
+    no Internet); the UDP-broadcast one really opens its broadcast socket, only its 65535-port beacon is cut to 3 ports."""
+    from ipv8.bootstrapping.dispersy.bootstrapper import DispersyBootstrapper
+    from ipv8.bootstrapping.udpbroadcast.bootstrapper import UDPBroadcastBootstrapper
+    d = DispersyBootstrapper(ip_addresses=[], dns_addresses=[], bootstrap_timeout=0.0)
+    u = UDPBroadcastBootstrapper(bootstrap_timeout=0.0)
+
+    def beacon(service_prefix, _u=u):
+        if _u.endpoint is not None:
+            for port in (1, 2, 3):
+                _u.endpoint.send(("255.255.255.255", port), b"c11-beacon" + service_prefix)
+    u.beacon = beacon
+    overlay.bootstrappers.extend([d, u])
+
+
+def wire_bootstrappers(nodes):
+    from ipv8.messaging.interfaces.udp.endpoint import UDPv4Address
+    for nd in nodes:
+        for ov in getattr(nd, "all_overlays", [nd.overlay]):
+            for b in getattr(ov, "bootstrappers", []):
+                if hasattr(b, "ip_addresses"):
+                    b.ip_addresses = [UDPv4Address(*o.base.wan_address) for o in nodes if o is not nd]
+
+
+def companions_send(nodes):
+    """The other overlays of the application go on with their own business (they were not unloaded)."""
+    for nd in nodes:
+        comp = getattr(nd, "companion", None)
+        if comp is not None:
+            for other in nodes:
+                if other is not nd:
+                    guarded(comp.walk_to, other.base.wan_address)
+
+
+async def sc_anon(sim, nodes, rng):
+    """A tunnel overlay plus an anonymised overlay on one TunnelEndpoint: the anonymised overlay's sends are turned into
+    circuits / data cells by the tunnel overlay the endpoint refers to."""
+    await introduce(nodes)
+    await nap(0.5)
+    for _ in range(3):
+        companions_send(nodes)
+        await nap(2.0)
+    for n in nodes:
+        act(n, "do_ping")
+    await nap(4.0)
 
 
 def watch_strategy(sim, strategy):
@@ -365,7 +441,8 @@ def build_service(sim, cls_name, stack, rng):
     for key in conf["keys"]:
         key["file"] = ""                      # storage location only
     for o in conf["overlays"]:
-        o["bootstrappers"] = []               # no Internet in the sandbox
+        for b in o["bootstrappers"]:          # the default DispersyBootstrapper stays; no Internet in the sandbox:
+            b["init"] = {"ip_addresses": [], "dns_addresses": [], "bootstrap_timeout": 0.0}   # addresses are wired later
     svc = IPv8(conf, endpoint_override=endpoint)
     logging.disable(logging.CRITICAL)
     node = None
@@ -396,6 +473,8 @@ async def sc_service(sim, nodes, rng):
     """Real services with the default configuration: tickers drive the walkers; everybody gets introduced."""
     for nd in nodes:
         await nd.service.start()
+        for ov in nd.all_overlays:
+            guarded(ov.bootstrap)
     await nap(0.2)
     for x in nodes:
         for y in nodes:
@@ -431,6 +510,9 @@ async def nap(t):
 
 
 async def introduce(nodes):
+    for x in nodes:
+        act(x, "bootstrap")
+    await nap(0.1)
     for x in nodes:
         for y in nodes:
             if x is not y:
@@ -529,6 +611,13 @@ async def sc_tunnel(sim, nodes, rng):
             act(a, "send_data", circ.hop.address, circ.circuit_id, ("127.0.0.1", sim.outside_port),
                 ("0.0.0.0", 0), bt)
         await nap(0.7)
+    # a second originator builds its own circuit to the same exit while the first one is in use
+    if len(nodes) > 2:
+        c2 = act(nodes[1], "create_circuit", 1, exit_flags=[PEER_FLAG_EXIT_BT])
+        await nap(0.6)
+        if c2 is not None and c2.hop is not None:
+            act(nodes[1], "send_data", c2.hop.address, c2.circuit_id, ("127.0.0.1", sim.outside_port), ("0.0.0.0", 0), bt)
+        await nap(0.4)
     for n in nodes:
         act(n, "do_ping")
     await nap(4.0)
@@ -649,7 +738,7 @@ async def sc_inflight(sim, nodes, rng):
     await nap(14.0)
 
 
-SCENARIOS = {"service": sc_service, "inflight": sc_inflight, "attestation": sc_attestation, "intro": sc_intro, "discovery": sc_discovery, "dht": sc_dht, "tunnel": sc_tunnel}
+SCENARIOS = {"anon": sc_anon, "service": sc_service, "inflight": sc_inflight, "attestation": sc_attestation, "intro": sc_intro, "discovery": sc_discovery, "dht": sc_dht, "tunnel": sc_tunnel}
 
 
 def scenario_families(cls_name):
@@ -664,6 +753,8 @@ def scenario_families(cls_name):
         fam.append("tunnel")
     if cls_name in INFLIGHT_APIS:
         fam.append("inflight")
+    if cls_name in ("TunnelCommunity", "HiddenTunnelCommunity"):
+        fam.append("anon")
     return fam          # (+ family "service" for the classes of the default configuration, see service_specs)
 
 
@@ -744,6 +835,16 @@ def run_scenario(spec, dry=False):
     outside.bind(("127.0.0.1", 0))
     sim.outside_port = outside.getsockname()[1]
     track_loop_sockets(sim)
+    sim.internet = mock_ep.internet
+    orig_run_once = loop._run_once  # noqa: SLF001
+
+    def run_once():
+        sim.iter += 1
+        if sim.trigger_iter is not None and sim.iter == sim.trigger_iter and sim.target is not None:
+            sim.request_unload()
+        orig_run_once()
+
+    loop._run_once = run_once  # noqa: SLF001
     try:
         loop.run_until_complete(_scenario_main(sim, cls, spec, rng, dry))
     finally:
@@ -767,6 +868,7 @@ def run_scenario(spec, dry=False):
         asyncio.set_event_loop(None)
         mock_ep.internet.clear()
     sim.stats["steps"] = sim.step
+    sim.stats["send_iters"] = sim.send_iters if dry else []
     sim.stats["ids_seen"] = len(sim.seen_ids)
     return sim.violations, sim.stats
 
@@ -781,8 +883,9 @@ async def _scenario_main(sim, cls, spec, rng, dry):
             nodes.append(build_service(sim, spec["cls"], spec["stack"], rng))
             continue
         flags = tunnel_flags(i, n, sim.hops) if family == "tunnel" or hasattr(cls.settings_class, "peer_flags") else None
-        nodes.append(build_node(sim, cls, spec["stack"], flags))
+        nodes.append(build_node(sim, cls, spec["stack"], flags, companion=(family == "anon")))
     target = nodes[spec["target"]]
+    wire_bootstrappers(nodes)
     sim.socket_baseline = count_socket_fds()
     sim.silence = spec.get("silence", "none")
     if not dry:
@@ -794,6 +897,8 @@ async def _scenario_main(sim, cls, spec, rng, dry):
             loop.call_later(trig[1], sim.request_unload)
         elif trig[0] == "mark":
             sim.trigger_mark = tuple(trig[1:])
+        elif trig[0] == "iter":
+            sim.trigger_iter = trig[1]
     await SCENARIOS[family](sim, nodes, rng)
     if dry:
         for nd in nodes:
@@ -810,6 +915,12 @@ async def _scenario_main(sim, cls, spec, rng, dry):
     ov = target.overlay
     # ---- late phase: the other nodes keep running; late datagrams of every kind reach the unloaded node
     await nap(0.3)
+    for owner_ov, tr in sim.loop_transports:
+        if owner_ov is ov and not tr.is_closing():
+            sim.violate("socket:open-when-unload-returned",
+                        f"{type(ov).__name__}: a UDP socket it opened ({tr.get_extra_info('sockname')}) is still open 0.3 virtual "
+                        f"s after unload() returned")
+            break
     late_datagrams(sim, target, nodes, rng)
     await nap(1.0)
     probe_api(sim, target)
@@ -820,7 +931,9 @@ async def _scenario_main(sim, cls, spec, rng, dry):
             guarded(other.overlay.walk_to, target.base.wan_address)
             if hasattr(other.overlay, "do_ping"):
                 guarded(other.overlay.do_ping)
-    await nap(LATE_SECONDS)
+    for _ in range(3):
+        companions_send(nodes)              # includes the companion overlay of the unloaded one: it is still loaded
+        await nap(LATE_SECONDS / 3)
     late_datagrams(sim, target, nodes, rng, replay_only=True)
     scan_coroutines(sim, target)
     poke_open_transports(sim, ov)
@@ -835,6 +948,9 @@ async def _scenario_main(sim, cls, spec, rng, dry):
                 await aguarded(other.service.stop())
             else:
                 await aguarded(other.overlay.unload())
+    for nd in nodes:
+        if getattr(nd, "companion", None) is not None:
+            await aguarded(nd.companion.unload())
     svc = getattr(target, "service", None)
     if svc is not None:
         # the service of the unloaded overlay keeps ticking its other overlays for two more virtual minutes
@@ -858,8 +974,14 @@ def late_datagrams(sim, target, nodes, rng, replay_only=False):
     seen = list(sim.received.get(ep, []))
     others = [nd.base.wan_address for nd in nodes if nd is not target] or [("9.9.9.9", 9)]
     deliver = ep.notify_listeners
+    wrapper = target.endpoint if target.endpoint is not ep and hasattr(target.endpoint, "set_tunnel_community") else None
     for pkt in seen[-400:]:
         guarded(deliver, pkt)
+    if wrapper is not None:
+        # datagrams that come out of a tunnel are delivered by the TunnelEndpoint itself (other code path)
+        for pkt in seen[-40:] + [(others[0], target.prefix + bytes([245]) + b"\x00" * 30)]:
+            guarded(wrapper.notify_listeners, pkt, True)
+            guarded(wrapper.notify_listeners, pkt, False)
     if replay_only:
         return
     body_by_id = {}
@@ -984,13 +1106,13 @@ def final_checks(sim, target):
     # sockets as the event loop / the OS see them, whatever the owning object remembers
     for owner_ov, tr in sim.loop_transports:
         if owner_ov is ov and not tr.is_closing():
-            sim.violate("exit_socket:transport-open-after-unload",
+            sim.violate("socket:open-after-unload",
                         f"{type(ov).__name__}: a UDP socket it opened ({tr.get_extra_info('sockname')}) is still open two "
                         f"virtual hours after unload() returned (no object refers to it any more or it was never closed)")
             break
     now = count_socket_fds()
     if sim.socket_baseline is not None and now is not None and now > sim.socket_baseline \
-            and all(v[0] != "exit_socket:transport-open-after-unload" for v in sim.violations):
+            and all(v[0] not in ("exit_socket:transport-open-after-unload", "socket:open-after-unload") for v in sim.violations):
         sim.violate("os:socket-open-after-unload",
                     f"{type(ov).__name__}: {now - sim.socket_baseline} more OS-level socket(s) open than before the run, two "
                     f"virtual hours after every overlay of the run was unloaded")
@@ -1013,8 +1135,41 @@ def pfx_bytes(p):
     return b"\x00\x02" + bytes([p]) * 20
 
 
-def registry_case(ctx: Ctx, rng, n_ops, gen_flags):
-    """One random op sequence on real Endpoint/TunnelEndpoint/PythonCryptoEndpoint objects; returns (lines, impl)."""
+def registry_gen(rng, n_ops, gen_flags):
+    """A random op sequence for the listener registry (pure function of the rng)."""
+    lines = [f"reset {gen_flags[0]} {gen_flags[1]}"]
+    for _ in range(n_ops):
+        r = rng.random()
+        via = int(rng.random() < 0.4)
+        l = rng.choice([1, 2, 3, 4, 5, 6])
+        p = rng.choice([7, 8])
+        if r < 0.16:
+            lines.append(f"r add {via} {l}")
+        elif r < 0.36:
+            lines.append(f"r addp {via} {l} {p}")
+        elif r < 0.54:
+            lines.append(f"r rm {via} {l}")
+        elif r < 0.62:
+            lines.append(f"r fwd {rng.choice([5, 6])} {rng.choice([1, 2, 3, 4])}")
+        elif r < 0.66:
+            lines.append(f"r unfwd {rng.choice([5, 6])}")
+        elif r < 0.69:
+            lines.append(f"r open {int(rng.random() < 0.6)}")
+        elif r < 0.74:
+            lines.append("r ref " + rng.choice(["none", "1", "2", "3", "4"]))
+        elif r < 0.79:
+            lines.append(f"r anon {rng.choice([1, 2, 3, 4])} {int(rng.random() < 0.6)}")
+        elif r < 0.86:
+            lines.append(f"r tnotify {int(rng.random() < 0.5)}")
+        elif r < 0.90:
+            lines.append("r driven")
+        else:
+            lines.append(f"r notify {rng.choice([7, 8, 9])}")
+    return lines
+
+
+def registry_exec(lines):
+    """Run registry op lines on real Endpoint / TunnelEndpoint / PythonCryptoEndpoint objects; returns the replies."""
     from ipv8.messaging.anonymization.crypto import PythonCryptoEndpoint
     from ipv8.messaging.anonymization.endpoint import TunnelEndpoint
     from ipv8.messaging.interfaces.endpoint import EndpointListener
@@ -1022,9 +1177,12 @@ def registry_case(ctx: Ctx, rng, n_ops, gen_flags):
     inner = MockEndpoint(("10.0.0.1", 1), ("10.0.0.1", 2))
     inner.open()
     outer = TunnelEndpoint(inner)
-    got = []
+    outer.set_anonymity(pfx_bytes(9), True)
+    got, driven = [], []
 
     class L(EndpointListener):
+        anonymize = False
+
         def __init__(self, ep, i):
             super().__init__(ep)
             self.i = i
@@ -1032,65 +1190,77 @@ def registry_case(ctx: Ctx, rng, n_ops, gen_flags):
         def on_packet(self, packet):
             got.append(self.i)
 
+        # what TunnelEndpoint.send calls on the tunnel community it refers to
+        def find_circuits(self, *a, **k):
+            driven.append(self.i)
+            return []
+
+        def create_circuit(self, *a, **k):
+            return None
+
     class P(PythonCryptoEndpoint):
         def on_packet(self, packet, warn_unknown=True):
             got.append(self.i)
             super().on_packet(packet, warn_unknown)
 
-    objs = {}
-    for i in (1, 2, 3, 4):
-        objs[i] = L(outer, i)
+    objs = {i: L(outer, i) for i in (1, 2, 3, 4)}
     for i in (5, 6):
         objs[i] = P(outer)
         objs[i].i = i
-    lines = [f"reset {gen_flags[0]} {gen_flags[1]}"]
-    impl = ["ok"]
-    kinds = set()
-    for _ in range(n_ops):
-        r = rng.random()
-        via = rng.random() < 0.4
-        ep = outer if via else inner
-        l = rng.choice([1, 2, 3, 4, 5, 6])
-        p = rng.choice([7, 8])
-        if r < 0.18:
-            ep.add_listener(objs[l])
-            lines.append(f"r add {int(via)} {l}")
+    impl = []
+    for ln in lines:
+        t = ln.split()
+        if t[0] == "reset":
             impl.append("ok")
-            kinds.add("add")
-        elif r < 0.40:
-            ep.add_prefix_listener(objs[l], pfx_bytes(p))
-            lines.append(f"r addp {int(via)} {l} {p}")
+            continue
+        op = t[1]
+        if op in ("add", "addp", "rm"):
+            ep = outer if t[2] == "1" else inner
+            o = objs[int(t[3])]
+            if op == "add":
+                ep.add_listener(o)
+            elif op == "addp":
+                ep.add_prefix_listener(o, pfx_bytes(int(t[4])))
+            else:
+                ep.remove_listener(o)
             impl.append("ok")
-            kinds.add("addp")
-        elif r < 0.60:
-            ep.remove_listener(objs[l])
-            lines.append(f"r rm {int(via)} {l}")
+        elif op == "fwd":
+            objs[int(t[2])].tunnel_community = objs[int(t[3])]
             impl.append("ok")
-            kinds.add("rm" + ("-outer" if via else ""))
-        elif r < 0.70:
-            a, b = rng.choice([5, 6]), rng.choice([1, 2, 3, 4])
-            objs[a].tunnel_community = objs[b]
-            lines.append(f"r fwd {a} {b}")
+        elif op == "unfwd":
+            objs[int(t[2])].tunnel_community = None
             impl.append("ok")
-            kinds.add("fwd")
-        elif r < 0.75:
-            a = rng.choice([5, 6])
-            objs[a].tunnel_community = None
-            lines.append(f"r unfwd {a}")
+        elif op == "open":
+            inner.open() if t[2] == "1" else inner.close()
             impl.append("ok")
-            kinds.add("unfwd")
-        elif r < 0.78:
-            b = rng.random() < 0.6
-            inner.open() if b else inner.close()
-            lines.append(f"r open {int(b)}")
+        elif op == "ref":
+            outer.set_tunnel_community(None if t[2] == "none" else objs[int(t[2])])
             impl.append("ok")
-        else:
-            q = rng.choice([7, 8, 9])
+        elif op == "anon":
+            objs[int(t[2])].anonymize = t[3] == "1"
+            impl.append("ok")
+        elif op == "tnotify":
             del got[:]
-            inner.notify_listeners((("1.1.1.1", 1), pfx_bytes(q) + b"\x01payload"))
-            lines.append(f"r notify {q}")
+            outer.notify_listeners((("1.1.1.1", 1), pfx_bytes(7) + b"\x01payload"), from_tunnel=(t[2] == "1"))
             impl.append("[" + ",".join(map(str, sorted(got))) + "]")
-            kinds.add("notify")
+        elif op == "driven":
+            del driven[:]
+            outer.send(("1.1.1.1", 1), pfx_bytes(9) + b"\x01anonymised send of another overlay")
+            impl.append("[" + ",".join(map(str, sorted(set(driven)))) + "]")
+        elif op == "notify":
+            del got[:]
+            inner.notify_listeners((("1.1.1.1", 1), pfx_bytes(int(t[2])) + b"\x01payload"))
+            impl.append("[" + ",".join(map(str, sorted(got))) + "]")
+        else:
+            raise InfraError("registry op " + ln)
+    return impl
+
+
+def registry_case(ctx: Ctx, rng, n_ops, gen_flags):
+    lines = registry_gen(rng, n_ops, gen_flags)
+    impl = registry_exec(lines)
+    kinds = {ln.split()[1] + ("-outer" if ln.split()[1] == "rm" and ln.split()[2] == "1" else "")
+             for ln in lines if ln.startswith("r ")}
     return lines, impl, kinds
 
 
@@ -1100,15 +1270,14 @@ def canon_reach(reply):
     return "[" + ",".join(map(str, items)) + "]"
 
 
-def registry_oracle(ctx: Ctx, rng, gen_flags):
-    """The property on the real registry: after remove_listener(o) — through the same endpoint object that o was added
-    with — no datagram of any prefix reaches o, whatever foreign listeners do afterwards."""
+def registry_oracle_exec(via, script):
+    """Run a registry history (ops before the removal of listener 1, `late-` ops after it) on the real endpoint classes,
+    then deliver datagrams through every path; True iff listener 1 stays silent."""
     from ipv8.messaging.anonymization.endpoint import TunnelEndpoint
     from ipv8.messaging.interfaces.endpoint import EndpointListener
     from ipv8.test.mocking.endpoint import MockEndpoint
     inner = MockEndpoint(("10.0.0.1", 1), ("10.0.0.1", 2))
     inner.open()
-    via = rng.random() < 0.5
     ep = TunnelEndpoint(inner) if via else inner
     got = []
 
@@ -1121,46 +1290,106 @@ def registry_oracle(ctx: Ctx, rng, gen_flags):
             got.append(self.i)
 
     ls = {i: L(ep, i) for i in (1, 2, 3)}
+    meth = {"add": "add_listener", "addp": "add_prefix_listener", "rm": "remove_listener"}
+    removed = False
+    for k, l, p in script:
+        if k.startswith("late-") and not removed:
+            ep.remove_listener(ls[1])
+            removed = True
+        k = k.replace("late-", "")
+        getattr(ep, meth[k])(*((ls[l],) if k != "addp" else (ls[l], pfx_bytes(p))))
+    if not removed:
+        ep.remove_listener(ls[1])
+    for q in (7, 8, 9):
+        inner.notify_listeners((("1.1.1.1", 1), pfx_bytes(q) + b"\x01x"))
+        if via:
+            ep.notify_listeners((("1.1.1.1", 1), pfx_bytes(q) + b"\x01x"), from_tunnel=False)
+            ep.notify_listeners((("1.1.1.1", 1), pfx_bytes(q) + b"\x01x"), from_tunnel=True)
+    return 1 not in got
+
+
+def registry_oracle(ctx: Ctx, rng, gen_flags):
+    """The property on the real registry: after remove_listener(o) — through the same endpoint object that o was added
+    with — no datagram of any prefix reaches o, whatever foreign listeners do afterwards."""
+    via = rng.random() < 0.5
     script = []
     for _ in range(rng.randrange(1, 8)):
         l = rng.choice([1, 2, 3])
         k = rng.choice(["add", "addp", "rm"]) if l != 1 else rng.choice(["add", "addp", "addp"])
-        p = rng.choice([7, 8])
-        script.append((k, l, p))
-        getattr(ep, {"add": "add_listener", "addp": "add_prefix_listener", "rm": "remove_listener"}[k])(
-            *((ls[l],) if k != "addp" else (ls[l], pfx_bytes(p))))
-    ep.remove_listener(ls[1])
+        script.append((k, l, rng.choice([7, 8])))
     for _ in range(rng.randrange(0, 6)):
-        l = rng.choice([2, 3])
-        k = rng.choice(["add", "addp", "rm"])
-        p = rng.choice([7, 8])
-        script.append(("late-" + k, l, p))
-        getattr(ep, {"add": "add_listener", "addp": "add_prefix_listener", "rm": "remove_listener"}[k])(
-            *((ls[l],) if k != "addp" else (ls[l], pfx_bytes(p))))
-    for q in (7, 8, 9):
-        inner.notify_listeners((("1.1.1.1", 1), pfx_bytes(q) + b"\x01x"))
+        script.append(("late-" + rng.choice(["add", "addp", "rm"]), rng.choice([2, 3]), rng.choice([7, 8])))
+    ok = registry_oracle_exec(via, script)
     ctx.case(("reg-oracle", via, tuple(script)), len(script) >= 3)
-    if 1 in got:
+    if not ok:
         site = "TunnelEndpoint.remove_listener" if via else "Endpoint.remove_listener"
         ctx.oracle_fail(f"{site}:still-delivered",
                         f"a listener removed through {'a TunnelEndpoint' if via else 'the endpoint'} still receives datagrams "
-                        f"(ops {script})", {"kind": "registry", "via": via, "script": script})
+                        f"(ops {script})", {"kind": "registry", "via": via, "script": [list(x) for x in script]})
 
 
-def tm_case(ctx: Ctx, rng, n_ops):
-    """Random TaskManager op sequence under the virtual clock.  Returns (lines, impl replies, kinds, oracle findings)."""
+def tm_gen(rng, n_ops):
+    """A random TaskManager op sequence (pure function of the rng).  The model is pass-granular: a second operation on a
+    name whose `replace_task` continuation is still queued is only issued after a loop pass, and shutdown is requested
+    at a quiescent point (the coroutine itself only starts in the next loop iteration)."""
+    lines = []
+    dirty = set()
+
+    def rand_spec():
+        kind = rng.choice(["imm", "imm", "long", "long", "delayed", "interval", "interval", "fut"])
+        d = rng.choice([0, 1, 2, 3]) if kind == "interval" else (rng.choice([1, 2, 3]) if kind == "delayed" else 0)
+        i = rng.choice([1, 2, 3]) if kind == "interval" else 1
+        stub = rng.choice([0, 0, 1, 2]) if kind == "long" else 0
+        return (kind, d, i, stub)
+
+    for _ in range(n_ops):
+        r = rng.random()
+        name = rng.randrange(4)
+        if name in dirty and r < 0.60:
+            lines.append("t settle")
+            dirty.clear()
+        if r >= 0.72:
+            dirty.clear()
+        if r < 0.32:
+            sp = rand_spec()
+            lines.append(f"t reg {name} {sp[0]} {sp[1]} {sp[2]} {sp[3]}")
+        elif r < 0.45:
+            lines.append(f"t cancel {name}")
+        elif r < 0.60:
+            sp = rand_spec()
+            if sp[0] == "fut":
+                sp = ("imm", 0, 1, 0)
+            lines.append(f"t replace {name} {sp[0]} {sp[1]} {sp[2]} {sp[3]}")
+            dirty.add(name)
+        elif r < 0.66:
+            lines.append("t settle")
+            dirty.clear()
+            lines.append("t shutdown")
+        elif r < 0.72:
+            lines.append(f"t active {name}")
+        elif r < 0.84:
+            lines.append("t settle")
+        else:
+            lines.append("t tick")
+    return lines
+
+
+def tm_exec(lines):
+    """Run TaskManager op lines on a real TaskManager under the virtual clock.
+    Returns (impl replies, kinds, oracle findings)."""
     import vclock
     from ipv8.taskmanager import TaskManager
     loop = vclock.new_loop()
-    lines, impl, kinds, findings = [], [], set(), []
+    impl, kinds, findings = [], set(), []
 
     async def main():
         from asyncio import CancelledError, Future, sleep
         tm = TaskManager()
         runs = []
         futs = []
-        state = {"down_at": None, "dead": False}
+        state = {"dead": False, "requested": False}
         orig_register = tm.register_task
+        live = {}            # the harness's own view of "a task of this name is still active"
 
         def reg_wrapper(name, *a, **k):
             old = getattr(a[0], "c11_old", None) if a else None
@@ -1173,9 +1402,7 @@ def tm_case(ctx: Ctx, rng, n_ops):
                 live[name] = f
             return f
 
-        live = {}            # the harness's own view of "a task of this name is still active"
         tm.register_task = reg_wrapper
-        pending_replace = {}
 
         def mk_body(name, spec):
             kind, _, _, stub = spec
@@ -1205,55 +1432,48 @@ def tm_case(ctx: Ctx, rng, n_ops):
                 return {"interval": i, "delay": d}
             return {}
 
-        def rand_spec():
-            kind = rng.choice(["imm", "imm", "long", "long", "delayed", "interval", "interval", "fut"])
-            d = rng.choice([0, 1, 2, 3]) if kind == "interval" else (rng.choice([1, 2, 3]) if kind == "delayed" else 0)
-            i = rng.choice([1, 2, 3]) if kind == "interval" else 1
-            stub = rng.choice([0, 0, 1, 2]) if kind == "long" else 0
-            return (kind, d, i, stub)
-
         async def settle():
             for _ in range(8):
                 await sleep(0)
+
+        shutdown_task = None
 
         def summary():
             active = sorted(n for n in range(4) if tm.is_pending_task_active(n))
             r = sorted(runs)
             del runs[:]
             alive = sum(1 for f in futs if not f.done())
-            return (f"active=[{','.join(map(str, active))}] runs=[{','.join(map(str, r))}] alive={alive}")
+            down = int(shutdown_task is not None and shutdown_task.done())
+            return f"active=[{','.join(map(str, active))}] runs=[{','.join(map(str, r))}] alive={alive} down={down}"
 
-        shutdown_task = None
-        dirty = set()        # names with a replace_task continuation queued since the last loop pass
-        for _ in range(n_ops):
-            r = rng.random()
-            name = rng.randrange(4)
-            if name in dirty and r < 0.60:
-                # the model is pass-granular: a second operation on a name whose replacement is still queued is
-                # only explored after a loop pass
-                lines.append("t settle")
-                await settle()
-                impl.append(summary())
-                dirty.clear()
-            if r >= 0.72:
-                dirty.clear()
-            if r < 0.32:
-                spec = rand_spec()
-                lines.append(f"t reg {name} {spec[0]} {spec[1]} {spec[2]} {spec[3]}")
+        async def do_shutdown():
+            tracked = [f for f in live.values() if not f.done()]
+            await tm.shutdown_task_manager()
+            state["dead"] = True
+            left = [f for f in tracked if not f.done()]
+            if left:
+                findings.append(("shutdown_task_manager:returned-before-tasks-finished",
+                                 f"shutdown_task_manager() returned while {len(left)} task(s) it had to cancel were still running"))
+
+        for ln in lines:
+            t = ln.split()
+            op = t[1]
+            if op == "reg":
+                name = int(t[2])
+                spec = (t[3], int(t[4]), int(t[5]), int(t[6]))
                 kinds.add("reg:" + spec[0])
                 was_active = name in live and not live[name].done()
-                was_down = tm._shutdown  # noqa: SLF001
-                state["direct"] = True
+                was_down = state["requested"]
+                handed = None
                 try:
                     if spec[0] == "fut":
-                        f = tm.register_task(name, Future())
+                        handed = Future()
+                        f = tm.register_task(name, handed)
                     else:
                         f = tm.register_task(name, mk_body(name, spec), **kwargs(spec))
                     res = "refused" if f.done() else "ok"
                 except RuntimeError:
                     res = "exists"
-                finally:
-                    state["direct"] = False
                 impl.append(res)
                 kinds.add("reg->" + res)
                 if was_active and not was_down and res != "exists":
@@ -1262,17 +1482,19 @@ def tm_case(ctx: Ctx, rng, n_ops):
                 if was_down and res != "refused":
                     findings.append(("register_task:accepted-after-shutdown",
                                      f"register_task({name}) returned {res} after shutdown_task_manager()"))
-            elif r < 0.45:
-                lines.append(f"t cancel {name}")
+                if was_down and handed is not None and not handed.done():
+                    findings.append(("register_task:refused-future-left-pending",
+                                     f"register_task({name}, <Future>) after shutdown neither tracked nor cancelled the future"))
+                    handed.cancel()
+            elif op == "cancel":
+                name = int(t[2])
                 live.pop(name, None)
                 f = tm.cancel_pending_task(name)
                 impl.append("some" if (not f.done() or f.cancelled()) else "none")
                 kinds.add("cancel")
-            elif r < 0.60:
-                spec = rand_spec()
-                if spec[0] == "fut":
-                    spec = ("imm", 0, 1, 0)
-                lines.append(f"t replace {name} {spec[0]} {spec[1]} {spec[2]} {spec[3]}")
+            elif op == "replace":
+                name = int(t[2])
+                spec = (t[3], int(t[4]), int(t[5]), int(t[6]))
                 old = tm.get_task(name)
                 body = mk_body(name, spec)
                 if old is not None and not old.done():
@@ -1280,49 +1502,36 @@ def tm_case(ctx: Ctx, rng, n_ops):
                     kinds.add("replace-active")
                 else:
                     kinds.add("replace-idle")
-                dirty.add(name)
                 live.pop(name, None)
                 nf = tm.replace_task(name, body, **kwargs(spec))
                 nf.add_done_callback(lambda f: f.exception() if not f.cancelled() else None)
                 impl.append("ok")
-            elif r < 0.66:
-                # shutdown is requested at a quiescent point (the coroutine itself only starts in the next iteration)
-                lines.append("t settle")
-                await settle()
-                impl.append(summary())
-                dirty.clear()
-                lines.append("t shutdown")
+            elif op == "shutdown":
                 kinds.add("shutdown")
                 if shutdown_task is None:
-                    async def do_shutdown():
-                        await tm.shutdown_task_manager()
-                        state["down_at"] = loop.time()
-                        state["dead"] = True
+                    state["requested"] = True
                     shutdown_task = asyncio.ensure_future(do_shutdown())
-                    # the model's shutdown op is "flag + cancel"; run the coroutine up to its first await
-                    await sleep(0)
+                    await sleep(0)       # the model's op is "flag + cancel": run the coroutine up to its first await
                 impl.append("ok")
-            elif r < 0.72:
-                lines.append(f"t active {name}")
-                impl.append("1" if tm.is_pending_task_active(name) else "0")
+            elif op == "active":
+                impl.append("1" if tm.is_pending_task_active(int(t[2])) else "0")
                 kinds.add("active?")
-            elif r < 0.84:
-                lines.append("t settle")
+            elif op == "settle":
                 await settle()
                 impl.append(summary())
                 kinds.add("settle")
-            else:
-                lines.append("t tick")
+            elif op == "tick":
+                await settle()
                 await sleep(1.0)
                 await settle()
                 impl.append(summary())
                 kinds.add("tick")
+            else:
+                raise InfraError("tm op " + ln)
         # end of the sequence: shut down (if not yet), give stubborn tasks time, then nothing may run any more
         if shutdown_task is None:
-            async def do_shutdown2():
-                await tm.shutdown_task_manager()
-                state["dead"] = True
-            shutdown_task = asyncio.ensure_future(do_shutdown2())
+            state["requested"] = True
+            shutdown_task = asyncio.ensure_future(do_shutdown())
         await asyncio.wait_for(shutdown_task, 100)
         await sleep(50)
         left = [f for f in futs if not f.done()]
@@ -1347,7 +1556,164 @@ def tm_case(ctx: Ctx, rng, n_ops):
         vclock.uninstall()
         loop.close()
         asyncio.set_event_loop(None)
+    return impl, kinds, findings
+
+
+def tm_case(ctx: Ctx, rng, n_ops):
+    lines = tm_gen(rng, n_ops)
+    impl, kinds, findings = tm_exec(lines)
     return lines, impl, kinds, findings
+
+
+# ---- RequestCache: the same scheduler model, driven through the cache API ------------------------------------------------
+def cache_gen(rng, n_ops):
+    lines = []
+    for _ in range(n_ops):
+        r = rng.random()
+        n = rng.randrange(4)
+        if r < 0.40:
+            lines.append(f"c add {n} {rng.choice([1, 2, 3])}")
+        elif r < 0.55:
+            lines.append(f"c pop {n}")
+        elif r < 0.70:
+            lines.append(f"c has {n}")
+        elif r < 0.76:
+            lines.append("c shutdown")
+        else:
+            lines.append("c tick")
+    return lines
+
+
+def cache_exec(lines):
+    """Run cache op lines on a real RequestCache under the virtual clock.  Replies use the vocabulary of the scheduler
+    model (add = register a delayed task under the cache's identifier, has = active, pop = cancel, shutdown)."""
+    import vclock
+    loop = vclock.new_loop()
+    impl, findings = [], []
+
+    async def main():
+        from asyncio import sleep
+
+        from ipv8.requestcache import NumberCache, RequestCache
+        rc = RequestCache()
+        timed_out = []
+        state = {"down": False}
+
+        class C(NumberCache):
+            def __init__(self, rc, n, d):
+                super().__init__(rc, "c11", n)
+                self.d = d
+
+            @property
+            def timeout_delay(self):
+                return float(self.d)
+
+            def on_timeout(self):
+                timed_out.append(self.number)
+                if state["down"]:
+                    findings.append(("request_cache:timeout-after-shutdown",
+                                     f"cache {self.number} timed out after RequestCache.shutdown() had completed"))
+
+        for ln in lines:
+            t = ln.split()
+            if t[1] == "add":
+                try:
+                    res = rc.add(C(rc, int(t[2]), int(t[3])))
+                except RuntimeError:            # NumberCache refuses a number that is in use at construction time
+                    res = None
+                if res is None:
+                    impl.append("refused" if state["down"] else "exists")
+                else:
+                    impl.append("ok")
+                    if state["down"]:
+                        findings.append(("request_cache.add:accepted-after-shutdown",
+                                         "RequestCache.add() accepted a cache after shutdown()"))
+            elif t[1] == "pop":
+                try:
+                    rc.pop("c11", int(t[2]))
+                    impl.append("some")
+                except KeyError:
+                    impl.append("none")
+            elif t[1] == "has":
+                impl.append("1" if rc.has("c11", int(t[2])) else "0")
+            elif t[1] == "shutdown":
+                await rc.shutdown()
+                state["down"] = True
+                impl.append("ok")
+            else:
+                for _ in range(6):
+                    await sleep(0)
+                await sleep(1.0)
+                for _ in range(6):
+                    await sleep(0)
+                r = sorted(timed_out)
+                del timed_out[:]
+                impl.append("runs=[" + ",".join(map(str, r)) + "]")
+        await rc.shutdown()
+        state["down"] = True
+        await sleep(20)
+
+    try:
+        loop.run_until_complete(main())
+    finally:
+        try:
+            pend = [t for t in asyncio.all_tasks(loop) if not t.done()]
+            for t in pend:
+                t.cancel()
+            if pend:
+                loop.run_until_complete(asyncio.gather(*pend, return_exceptions=True))
+        except Exception:  # noqa: BLE001
+            pass
+        vclock.uninstall()
+        loop.close()
+        asyncio.set_event_loop(None)
+    return impl, findings
+
+
+def cache_model_lines(lines):
+    """The same ops in the scheduler model's protocol."""
+    out = []
+    for ln in lines:
+        t = ln.split()
+        if t[1] == "add":
+            out.append(f"t reg {t[2]} delayed {t[3]} 1 0")
+        elif t[1] == "pop":
+            out.append(f"t cancel {t[2]}")
+        elif t[1] == "has":
+            out.append(f"t active {t[2]}")
+        elif t[1] == "shutdown":
+            out.append("t shutdown")
+        else:
+            out.append("t tick")
+    return out
+
+
+def run_cache(ctx: Ctx, rng, n_cases, use_model):
+    all_model, all_impl, all_src, starts = [], [], [], []
+    for _ in range(n_cases):
+        lines = cache_gen(rng, rng.randrange(4, 30))
+        impl, findings = cache_exec(lines)
+        ctx.case(("cache", tuple(lines)), any(ln.startswith("c add") for ln in lines))
+        for ln in lines:
+            ctx.count("cache-op:" + ln.split()[1])
+        for sig, what in findings:
+            ctx.count("violation:" + sig)
+            ctx.oracle_fail(sig, what + f" (op sequence: {lines})", {"kind": "cache-seq", "lines": lines})
+        starts.append(len(all_model))
+        all_model += ["reset 1 1"] + cache_model_lines(lines)
+        all_impl += ["ok"] + impl
+        all_src += ["reset"] + lines
+    if use_model and all_model:
+        replies = ctx.driver().batch(all_model)
+        bad = 0
+        for i, (ln, m, im) in enumerate(zip(all_src, replies, all_impl)):
+            if ln.startswith("c tick"):
+                m = m.split(" ")[1]            # only the bodies (timeouts) that ran
+            if m != im and bad < 5:
+                st = max(x for x in starts if x <= i)
+                ctx.disagree(f"request cache: model `{m}` != implementation `{im}` on `{ln}`",
+                             {"kind": "cache-seq", "lines": all_src[st + 1:i + 1], "model": m, "impl": im})
+                bad += 1
 
 
 def strip_order(reply):
@@ -1412,7 +1778,8 @@ def unload_static_case(cls_name, stack, with_exit):
         out["impl"] = (f"listening={int(heard['self'] > 0)} proxy={int(heard['proxy'] > 0)} tm={int(bool(ov._shutdown))} "  # noqa: SLF001
                        f"cache={int(rc is None or bool(rc._shutdown))} "  # noqa: SLF001
                        f"db={int(db is None or db._connection is None)} "  # noqa: SLF001
-                       f"open={1 if (open_tr or live_es) else 0} tables={tables}")
+                       f"open={1 if (open_tr or live_es) else 0} tables={tables} "
+                       f"ref={int(getattr(node.endpoint, 'tunnel_community', None) is ov)}")
         out["line"] = f"u {cls_name} {int(stack == 'tunnel-endpoint')} {ov.settings.remove_tunnel_delay if hasattr(ov, 'settings') else 5} 0 0 {n_exit} {n_exit}"
         await aguarded(other.overlay.unload())
 
@@ -1451,6 +1818,8 @@ def scenario_specs(ctx: Ctx, rng, per_combo_steps, per_combo_times, steps_cache)
     for cls in classes:
         for family in scenario_families(cls):
             for stack in STACKS:
+                if family == "anon" and stack != "tunnel-endpoint":
+                    continue
                 if family == "inflight":
                     yield from inflight_specs(cls, stack, rng, per_combo_steps is None)
                     continue
@@ -1465,7 +1834,9 @@ def scenario_specs(ctx: Ctx, rng, per_combo_steps, per_combo_times, steps_cache)
                     if key not in steps_cache:
                         _, st = run_scenario({**base, "target": 0, "trigger": ["idle"]}, dry=True)
                         steps_cache[key] = st["steps"]
+                        steps_cache[("iters",) + key] = st["send_iters"]
                     total = steps_cache[key]
+                    send_iters = steps_cache[("iters",) + key]
                     if per_combo_steps is None:
                         ks = list(range(total + 1))
                     else:
@@ -1476,6 +1847,18 @@ def scenario_specs(ctx: Ctx, rng, per_combo_steps, per_combo_times, steps_cache)
                     for _ in range(per_combo_times):
                         yield {**base, "target": rng.randrange(n), "trigger": ["time", round(rng.uniform(0.0, 16.0), 3)]}
                     yield {**base, "target": rng.randrange(n), "trigger": ["idle"]}
+                    if family == "intro":
+                        # unload landing in the loop iterations after the bootstrapper starts opening its socket
+                        for it in (range(8) if per_combo_steps is None else [rng.randrange(8) for _ in range(2)]):
+                            yield {**base, "target": rng.randrange(n), "trigger": ["mark", "acquire", 0, "iter", it]}
+                    if family == "tunnel" and (hops == 1 or per_combo_steps is None):
+                        # "at whatever moment": the unload is requested at EVERY event-loop iteration in the windows before
+                        # a datagram reaches the node (a CREATE / data cell may arrive while unload is suspended)
+                        deep = per_combo_steps is None
+                        for tgt in (range(n) if deep else [n - 1]):
+                            its = sorted({it - d for it, dst in send_iters if dst == tgt for d in range(6) if it - d > 0})
+                            for it in its:
+                                yield {**base, "target": tgt, "trigger": ["iter", it]}
                     if family == "tunnel":
                         # unload landing at every loop iteration after the exit node starts opening a socket
                         deep = per_combo_steps is None
@@ -1534,10 +1917,10 @@ def run_one_scenario(ctx: Ctx, spec):
     if spec["family"] == "inflight":
         ctx.count(f"inflight-silence:{spec.get('silence')}")
         ctx.extra["api_inflight"] = INFLIGHT_APIS
-    ctx.count("unload-with-pending-tasks" if st["pre_tasks"] else "unload-without-pending-tasks")
+    ctx.count("unload-with-protocol-tasks-pending" if st["pre_tasks"] else "unload-with-only-builtin-periodic-tasks")
     ctx.count("target-traffic:%s" % ("none" if st["pre_sent"] + st["pre_recv"] == 0 else
                                      "1-9" if st["pre_sent"] + st["pre_recv"] < 10 else "10+"))
-    nontrivial = (st["pre_sent"] + st["pre_recv"] > 0) or st["pre_tasks"] > 0
+    nontrivial = (st["pre_sent"] + st["pre_recv"] > 0) or st["pre_tasks"] > 0      # RULE: traffic or a protocol task pending
     ctx.case((spec["cls"], spec["stack"], spec["family"], spec["target"], tuple(trig), spec["hops"], spec.get("silence")), nontrivial)
     for sig, what in viol:
         ctx.count("violation:" + sig)
@@ -1562,7 +1945,8 @@ def run_scenarios(ctx: Ctx, rng, per_combo_steps, per_combo_times, limit=None):
             n += 1
         if limit is not None and n >= limit:
             break
-    ctx.extra.setdefault("scenario_steps", {}).update({"/".join(map(str, k)): v for k, v in steps_cache.items()})
+    ctx.extra.setdefault("scenario_steps", {}).update({"/".join(map(str, k)): v for k, v in steps_cache.items()
+                                                       if k[0] != "iters"})
     return n
 
 
@@ -1585,7 +1969,7 @@ def run_registry(ctx: Ctx, rng, n_cases, use_model):
         for k in kinds:
             ctx.count("registry-op:" + k)
         ctx.count("registry-len:%s" % ("4-12" if n_ops < 13 else "13-25" if n_ops < 26 else "26-39"))
-        ctx.case(("reg", tuple(lines)), "notify" in kinds and n_ops >= 4)
+        ctx.case(("reg", tuple(lines)), bool(kinds & {"notify", "tnotify", "driven"}) and n_ops >= 4)
         starts.append(len(all_lines))
         all_lines += lines
         all_impl += impl
@@ -1595,7 +1979,7 @@ def run_registry(ctx: Ctx, rng, n_cases, use_model):
         replies = ctx.driver().batch(all_lines)
         bad = 0
         for i, (ln, m, im) in enumerate(zip(all_lines, replies, all_impl)):
-            mm = canon_reach(m) if ln.startswith("r notify") else m
+            mm = canon_reach(m) if ln.startswith(("r notify", "r tnotify", "r driven")) else m
             if mm != im and bad < 5:
                 s = max(x for x in starts if x <= i)
                 ctx.disagree(f"registry: model {mm} != implementation {im} on `{ln}` (op {i - s} of its sequence)",
@@ -1607,9 +1991,7 @@ def run_tm(ctx: Ctx, rng, n_cases, use_model):
     all_lines, all_impl, starts = [], [], []
     for _ in range(n_cases):
         n_ops = rng.randrange(4, 40)
-        sub = random.Random(rng.getrandbits(40))
-        seed_state = sub.getstate()
-        lines, impl, kinds, findings = tm_case(ctx, sub, n_ops)
+        lines, impl, kinds, findings = tm_case(ctx, rng, n_ops)
         for k in kinds:
             ctx.count("tm-op:" + k)
         ctx.case(("tm", tuple(lines)), len(lines) >= 4 and any(k.startswith("reg->ok") for k in kinds))
@@ -1619,7 +2001,6 @@ def run_tm(ctx: Ctx, rng, n_cases, use_model):
         starts.append(len(all_lines))
         all_lines += ["reset 1 1"] + lines
         all_impl += ["ok"] + impl
-        del seed_state
     if use_model and all_lines:
         replies = ctx.driver().batch(all_lines)
         bad = 0
@@ -1644,15 +2025,17 @@ def run_unload_static(ctx: Ctx, use_model):
                 impls.append(impl)
                 meta.append((cls, stack, with_exit))
                 ctx.count("unload-static:" + cls)
-                ctx.case(("unload-static", cls, stack, with_exit), True)
-                want = "listening=0 proxy=0 tm=1 cache=1 db=1 open=0 tables=0"
+                ctx.case(("unload-static", cls, stack, with_exit), with_exit)
+                want = "listening=0 proxy=0 tm=1 cache=1 db=1 open=0 tables=0 ref=0"
                 if impl != want:
                     bad = [kv for kv, w in zip(impl.split(" "), want.split(" ")) if kv != w]
                     sig = {"listening": "on_packet:delivered-after-unload", "proxy": "crypto_endpoint:listener-left-after-unload",
                            "tm": "unload:task-manager-not-shut-down", "cache": "unload:request-cache-not-shut-down",
                            "db": "unload:database-left-open", "open": "exit_socket:transport-open-after-unload",
-                           "tables": "unload:tunnel-tables-not-cleared"}[bad[0].split("=")[0]]
-                    if sig not in ("unload:tunnel-tables-not-cleared", "unload:database-left-open"):
+                           "tables": "unload:tunnel-tables-not-cleared",
+                           "ref": "tunnel_endpoint:still-refers-to-unloaded-community"}[bad[0].split("=")[0]]
+                    # the tunnel tables are plain dicts (no resource): a difference there is left to the correspondence
+                    if sig != "unload:tunnel-tables-not-cleared":
                         ctx.oracle_fail(sig, f"{cls} on {stack} endpoint{' with an open exit socket' if with_exit else ''}: "
                                              f"after unload() of the idle overlay: {' '.join(bad)}",
                                         {"kind": "unload-static", "cls": cls, "stack": stack, "with_exit": with_exit})
@@ -1664,8 +2047,31 @@ def run_unload_static(ctx: Ctx, use_model):
                              {"kind": "unload-static", "line": ln, "model": m, "impl": im})
 
 
-async def service_ops_case(ctx: Ctx, rng, n_ops):
-    """Random add_strategy / unload_overlay sequences on a real (unstarted) IPv8 with stub overlays and strategies."""
+def service_gen(rng, n_ops):
+    """add_strategy / unload_overlay sequences; runs of consecutive strategies of one overlay are as likely as
+    interleavings, and an unload mostly hits an overlay that has strategies."""
+    lines = ["s reset"]
+    sid = 0
+    have = {1: 0, 2: 0, 3: 0}
+    for _ in range(n_ops):
+        if rng.random() < 0.65:
+            o = rng.choice([1, 2, 3])
+            for _ in range(rng.choice([1, 1, 2, 3])):
+                sid += 1
+                lines.append(f"s add {o} {sid}")
+                have[o] += 1
+        else:
+            with_st = [o for o in have if have[o] > 0]
+            o = rng.choice(with_st) if with_st and rng.random() < 0.85 else rng.choice([1, 2, 3])
+            lines.append(f"s unload {o}")
+            have[o] = 0
+        lines.append("s list")
+    return lines
+
+
+async def service_exec(lines):
+    """Run service op lines on a real (unstarted) IPv8 with stub overlays and strategies.
+    Returns (impl replies, findings, counts)."""
     from ipv8.test.mocking.endpoint import MockEndpoint
     from ipv8_service import IPv8
     ep = MockEndpoint(("10.0.0.9", 1), ("10.0.0.9", 2))
@@ -1675,10 +2081,9 @@ async def service_ops_case(ctx: Ctx, rng, n_ops):
     class Ov:
         def __init__(self, i):
             self.i = i
-            self.unloaded = 0
 
         def unload(self):
-            self.unloaded += 1
+            pass
 
     class St:
         def __init__(self, sid, ov):
@@ -1686,36 +2091,42 @@ async def service_ops_case(ctx: Ctx, rng, n_ops):
             self.overlay = ov
 
     ovs = {i: Ov(i) for i in (1, 2, 3)}
-    lines, impl = ["s reset"], ["ok"]
-    sid = 0
+    impl, findings, counts = [], [], []
     shape = []
-    for _ in range(n_ops):
-        if rng.random() < 0.7:
-            # runs of consecutive strategies of one overlay are as likely as interleavings
-            o = rng.choice([1, 2, 3])
-            for _ in range(rng.choice([1, 1, 2, 3])):
-                sid += 1
-                svc.add_strategy(ovs[o], St(sid, ovs[o]), rng.choice([-1, 20]))
-                lines.append(f"s add {o} {sid}")
-                impl.append("ok")
-                shape.append(o)
-        else:
-            o = rng.choice([1, 2, 3])
+    for ln in lines:
+        t = ln.split()
+        if t[1] == "reset":
+            impl.append("ok")
+        elif t[1] == "add":
+            o = int(t[2])
+            svc.add_strategy(ovs[o], St(int(t[3]), ovs[o]), -1 if int(t[3]) % 2 else 20)
+            shape.append(o)
+            impl.append("ok")
+        elif t[1] == "unload":
+            o = int(t[2])
             had = sum(1 for st, _ in svc.strategies if st.overlay is ovs[o])
             await svc.unload_overlay(ovs[o])
-            lines.append(f"s unload {o}")
             impl.append("ok")
             left = [st.sid for st, _ in svc.strategies if st.overlay is ovs[o]]
-            ctx.count("service-unload:%d-strategies" % min(had, 4))
+            counts.append(min(had, 4))
             if left or ovs[o] in svc.overlays:
-                ctx.oracle_fail("IPv8.unload_overlay:strategy-left-registered",
-                                f"after unload_overlay of an overlay with {had} strategies (registration order of overlays "
-                                f"{shape}) the service still holds its strategies {left}",
-                                {"kind": "service-ops", "lines": lines[1:]})
+                findings.append(("IPv8.unload_overlay:strategy-left-registered",
+                                 f"after unload_overlay of an overlay with {had} strategies (registration order of overlays "
+                                 f"{shape}) the service still holds its strategies {left}"))
             shape = [x for x in shape if x != o]
-        lines.append("s list")
-        impl.append("overlays=[" + ",".join(str(o.i) for o in svc.overlays) + "] strategies=["
-                    + ",".join(f"{st.sid}:{st.overlay.i}" for st, _ in svc.strategies) + "]")
+        else:
+            impl.append("overlays=[" + ",".join(str(o.i) for o in svc.overlays) + "] strategies=["
+                        + ",".join(f"{st.sid}:{st.overlay.i}" for st, _ in svc.strategies) + "]")
+    return impl, findings, counts
+
+
+async def service_ops_case(ctx: Ctx, rng, n_ops):
+    lines = service_gen(rng, n_ops)
+    impl, findings, counts = await service_exec(lines)
+    for c in counts:
+        ctx.count("service-unload:%d-strategies" % c)
+    for sig, what in findings:
+        ctx.oracle_fail(sig, what, {"kind": "service-ops", "lines": lines})
     return lines, impl
 
 
@@ -1759,6 +2170,7 @@ def run(ctx: Ctx):
     run_registry(ctx, rng, ctx.scale(600, 4000), use_model)
     run_tm(ctx, rng, ctx.scale(600, 4000), use_model)
     run_service_ops(ctx, rng, ctx.scale(300, 3000), use_model)
+    run_cache(ctx, rng, ctx.scale(300, 3000), use_model)
     if ctx.thorough():
         run_scenarios(ctx, rng, None, 6)          # every packet index, every role
     else:
@@ -1776,6 +2188,7 @@ def search(ctx: Ctx, reason: str):
     run_registry(ctx, rng, 1500, False)
     run_tm(ctx, rng, 800, False)
     run_service_ops(ctx, rng, 1000, False)
+    run_cache(ctx, rng, 800, False)
     run_scenarios(ctx, rng, 14, 5)
 
 
@@ -1788,13 +2201,54 @@ def replay(ctx: Ctx, rec: dict):
         print(f"replay scenario {r['spec']}: {'property FAILS: ' + '; '.join(w for _, w in viol) if viol else 'property holds'}")
     elif kind == "unload-static":
         line, impl = unload_static_case(r["cls"], r["stack"], r["with_exit"])
-        ok = impl == "listening=0 proxy=0 tm=1 cache=1 db=1 open=0 tables=0"
+        ok = impl == "listening=0 proxy=0 tm=1 cache=1 db=1 open=0 tables=0 ref=0"
         print(f"replay unload of idle {r['cls']} on {r['stack']}: {impl}: property {'holds' if ok else 'FAILS'}")
         if not ok:
             ctx.oracle_fail("replay", impl, r)
         ctx.case(("replay",), True)
-    elif kind == "tm":
-        print("replay: task-manager sequences are regenerated from the seed; re-run with the recorded seed")
+    elif kind in ("tm", "tm-seq"):
+        lines = r["lines"]
+        impl, _, findings = tm_exec(lines)
+        for ln, im in zip(lines, impl):
+            print(f"   {ln:34s} -> {im}")
+        for sig, what in findings:
+            ctx.oracle_fail(sig, what, r)
+        print(f"replay TaskManager sequence ({len(lines)} ops): {'property FAILS: ' + '; '.join(w for _, w in findings) if findings else 'property holds'}")
+        ctx.case(("replay",), True)
+    elif kind == "cache-seq":
+        lines = r["lines"]
+        impl, findings = cache_exec(lines)
+        for ln, im in zip(lines, impl):
+            print(f"   {ln:20s} -> {im}")
+        for sig, what in findings:
+            ctx.oracle_fail(sig, what, r)
+        print(f"replay RequestCache sequence: {'property FAILS: ' + '; '.join(w for _, w in findings) if findings else 'property holds'}")
+        ctx.case(("replay",), True)
+    elif kind == "registry-seq":
+        lines = r["lines"]
+        impl = registry_exec(lines)
+        for ln, im in zip(lines, impl):
+            print(f"   {ln:20s} -> {im}")
+        print("replay registry sequence: replies above (the model's replies are in the record)")
+        ctx.case(("replay",), True)
+    elif kind == "registry":
+        ok = registry_oracle_exec(r["via"], [tuple(x) for x in r["script"]])
+        print(f"replay registry history {r['script']}: property {'holds' if ok else 'FAILS'}")
+        if not ok:
+            ctx.oracle_fail("replay", "removed listener still receives datagrams", r)
+        ctx.case(("replay",), True)
+    elif kind == "service-ops":
+        import vclock
+        loop = vclock.new_loop()
+        try:
+            impl, findings, _ = loop.run_until_complete(service_exec(["s reset"] + [ln for ln in r["lines"] if ln != "s reset"]))
+        finally:
+            vclock.uninstall()
+            loop.close()
+            asyncio.set_event_loop(None)
+        for sig, what in findings:
+            ctx.oracle_fail(sig, what, r)
+        print(f"replay service sequence: {'property FAILS: ' + '; '.join(w for _, w in findings) if findings else 'property holds'}")
         ctx.case(("replay",), True)
     else:
         print("replay: unknown record kind", kind)
